@@ -1,6 +1,7 @@
 package main
 
 import (
+	"os"
 	"fmt"
 	"regexp"
 	"strings"
@@ -183,6 +184,14 @@ func (lm *lemmas) slice(fn *ssa.Function, x *ssa.Slice) (ok bool, why string, ha
 	for _, g := range good {
 		if strings.HasPrefix(g, pos+":") {
 			return true, "lemma c: " + g + "; start <= current <= len(source) by the who-writes invariants of the scanner fields", true
+		}
+	}
+	if os.Getenv("DBGSOLE") != "" {
+		fmt.Fprintln(os.Stderr, "lemma c", pos, len(good), len(bad), run.m.Undecided)
+		for i, g := range good {
+			if i < 3 {
+				fmt.Fprintln(os.Stderr, "  ", g)
+			}
 		}
 	}
 	return false, "lemma c: the slice at " + pos + " was not reached by the scanner exploration", true
